@@ -42,31 +42,43 @@ theorem C03_equal_parse_equal_result (e1 e2 : Bytes) (ast : Node N)
     (doc : Val N) : Api.search Model.cfg e1 doc = Api.search Model.cfg e2 doc := by
   simp only [Api.search, h1, h2]
 
-/-! ### (3) The precedence rules themselves: the parser inverts the precedence-aware printer
+/-! ### (3) The precedence and projection-scope rules themselves: the parser inverts the printer
 
-`Spec.PE` is the abstract syntax of the projection-free fragment (identifiers,
-literals, `@`, index, sub-expression, `!`, the binary operators `|`, `||`, `&&`
-and the six comparators, function calls with `&` arguments, multi-select lists
-and hashes, nested without bound).  `Spec.ppE false e` writes `e` with
-parentheses ONLY where the JMESPath precedence rules require them — a left
-operand of lower level, a right operand of lower OR EQUAL level (left
-associativity), with levels pipe < or < and < comparators < dot < not < index <
-call — and `Spec.ppE true e` parenthesises every operand.  The theorem says the
-parser of /repo (its regenerated table) maps both spellings to the AST `e`
-denotes: unparenthesised expressions group exactly as the rules dictate. -/
+`Spec.PE` is the concrete syntax tree of an expression (Spec/Printer.lean):
+identifiers, literals, `@`, index, sub-expression, `!`, the binary operators
+`|`, `||`, `&&` and the six comparators, function calls with `&` arguments,
+multi-select lists and hashes, explicit parentheses anywhere, and the
+projections `*`, `[*]`, `[]`, slices and filters with their right-hand sides —
+nested without bound.  `Spec.ppE e` writes `e` with parentheses ONLY where the
+JMESPath rules require them:
+
+  * a left operand is parenthesised when a token of the operator's power would
+    otherwise be read as part of it (`PE.rp`), a right operand when its level
+    is not higher than the operator's (left associativity); levels: pipe < or <
+    and < comparators < flatten < filter < dot < not < index, `[*]`, slice < call;
+  * a projection's right-hand side is read at level 20 (9 after `[]`, 21 after
+    a filter): it takes every dot, bracket and filter that follows and ends in
+    front of a pipe, a flatten or any looser operator — so `a[*].b.c` is
+    `a[*].(b.c)` applied per element, and `(a[*].b).c` needs its parentheses.
+
+The theorem: the parser of /repo (its regenerated table) maps the printed
+tokens to the AST `e` denotes, so unparenthesised expressions group exactly as
+the rules dictate; and explicit parentheses leave no trace (`node_erase`). -/
 
 open Jmes.Spec in
-theorem C03_printer_round_trip (e : PE N) (hw : Parser.wf e) (full : Bool) :
-    parseTokens Generated.table (ppE full e ++ [eofTok 0]) = .ok (node e) := by
+theorem C03_printer_round_trip (e : PE N) (hw : Parser.wf e) :
+    parseTokens Generated.table (ppE e ++ [eofTok 0]) = .ok (node e) := by
   rw [C03_order_facts_determine_the_parser Generated.table generated_table_ok]
-  exact round_trip_spec e hw full
+  exact round_trip_spec e hw
 
 /-- Redundant parentheses never change the parse (hence, by
-    `C03_equal_parse_equal_result`, never the meaning). -/
-theorem C03_redundant_parentheses (e : Spec.PE N) (hw : Parser.wf e) :
-    parseTokens (N := N) Generated.table (Spec.ppE true e ++ [eofTok 0]) =
-      parseTokens Generated.table (Spec.ppE false e ++ [eofTok 0]) := by
-  rw [C03_printer_round_trip e hw true, C03_printer_round_trip e hw false]
+    `C03_equal_parse_equal_result`, never the meaning): an expression with
+    explicit parentheses anywhere parses to the AST of the expression with all
+    of them erased (the printer re-inserts the necessary ones). -/
+theorem C03_redundant_parentheses (e : Spec.PE N) (hw : Parser.wf e) (hw' : Parser.wf (Spec.erase e)) :
+    parseTokens (N := N) Generated.table (Spec.ppE e ++ [eofTok 0]) =
+      parseTokens Generated.table (Spec.ppE (Spec.erase e) ++ [eofTok 0]) := by
+  rw [C03_printer_round_trip e hw, C03_printer_round_trip _ hw', node_erase]
 
 section Examples
 open Jmes.Spec
@@ -79,19 +91,33 @@ private def i (s : String) : Token := tk .uident (b s)
 -- what the printer writes (these are evaluations of `ppE`, shown so that the
 -- theorem above can be read concretely; they are not the unbounded claim)
 /-- `a || b || c` is `(a || b) || c` … -/
-example : ppE false (.bin .or (.bin .or (a (N := N)) b') c) = [i "a", t .or, i "b", t .or, i "c"] := rfl
+example : ppE (.bin .or (.bin .or (a (N := N)) b') c) = [i "a", t .or, i "b", t .or, i "c"] := rfl
 /-- … and `a || (b || c)` needs its parentheses. -/
-example : ppE false (.bin .or (a (N := N)) (.bin .or b' c)) = [i "a", t .or, t .lparen, i "b", t .or, i "c", t .rparen] := rfl
+example : ppE (.bin .or (a (N := N)) (.bin .or b' c)) = [i "a", t .or, t .lparen, i "b", t .or, i "c", t .rparen] := rfl
 /-- `a || b && c` is `a || (b && c)`; `(a || b) && c` needs its parentheses. -/
-example : ppE false (.bin .or (a (N := N)) (.bin .and b' c)) = [i "a", t .or, i "b", t .and, i "c"] := rfl
-example : ppE false (.bin .and (.bin .or (a (N := N)) b') c) = [t .lparen, i "a", t .or, i "b", t .rparen, t .and, i "c"] := rfl
-/-- `!a == b` is `(!a) == b`; `a.b | c` is `(a.b) | c`; `!(a.b)` needs its parentheses (`!a.b` is `(!a).b`: not binds tighter than dot). -/
-example : ppE false (.bin (.cmp .eq) (.not (a (N := N))) b') = [t .not, i "a", t .eq, i "b"] := rfl
-example : ppE false (.bin .pipe (.sub (a (N := N)) b') c) = [i "a", t .dot, i "b", t .pipe, i "c"] := rfl
-example : ppE false (.not (.sub (a (N := N)) b')) = [t .not, t .lparen, i "a", t .dot, i "b", t .rparen] := rfl
+example : ppE (.bin .or (a (N := N)) (.bin .and b' c)) = [i "a", t .or, i "b", t .and, i "c"] := rfl
+example : ppE (.bin .and (.bin .or (a (N := N)) b') c) = [t .lparen, i "a", t .or, i "b", t .rparen, t .and, i "c"] := rfl
+/-- `!a == b` is `(!a) == b`; `a.b | c` is `(a.b) | c`; `!(a.b)` needs its parentheses (`!a.b` is `(!a).b`). -/
+example : ppE (.bin (.cmp .eq) (.not (a (N := N))) b') = [t .not, i "a", t .eq, i "b"] := rfl
+example : ppE (.bin .pipe (.sub (a (N := N)) b') c) = [i "a", t .dot, i "b", t .pipe, i "c"] := rfl
+example : ppE (.not (.sub (a (N := N)) b')) = [t .not, t .lparen, i "a", t .dot, i "b", t .rparen] := rfl
+/-- projection scope: `a[*].b.c` applies `b.c` to every element … -/
+example : ppE (.bstar (a (N := N)) (.dot (.sub b' c))) = [i "a", t .lbracket, t .star, t .rbracket, t .dot, i "b", t .dot, i "c"] := rfl
+/-- … whereas `.c` applied to the projection's result needs parentheses: `(a[*].b).c`; -/
+example : ppE (.sub (.bstar (a (N := N)) (.dot b')) c) =
+    [t .lparen, i "a", t .lbracket, t .star, t .rbracket, t .dot, i "b", t .rparen, t .dot, i "c"] := rfl
+/-- a pipe and a flatten end the right-hand side: `a[*].b | c`, `a[*].b[]`; -/
+example : ppE (.bin .pipe (.bstar (a (N := N)) (.dot b')) c) = [i "a", t .lbracket, t .star, t .rbracket, t .dot, i "b", t .pipe, i "c"] := rfl
+example : ppE (.flat (.bstar (a (N := N)) (.dot b')) .none) = [i "a", t .lbracket, t .star, t .rbracket, t .dot, i "b", t .flatten] := rfl
+/-- so does `||`: `a[?b].c || c`. -/
+example : ppE (.bin .or (.filt (a (N := N)) b' (.dot c)) c) =
+    [i "a", t .filter, i "b", t .rbracket, t .dot, i "c", t .or, i "c"] := rfl
 /-- the hypotheses of the theorem are satisfiable: -/
 example : Parser.wf (.bin .or (.bin .or (a (N := N)) b') (.sub c (.call (b "f") [(true, a), (false, .list b' [c])]))) := by
-  simp [Parser.wf, Parser.wfArgs, Parser.wfList, dotOK, dotHead, a, b', c]
+  simp [Parser.wf, Parser.wfArgs, Parser.wfList, dotOK, first, PE.isListOrHash, PE.level, a, b', c]
+example : Parser.wf (.flat (.bstar (a (N := N)) (.dot (.sub b' c))) (.br (.idx0 [0x30] 0))) := by
+  have h0 : atoi [0x30] = some 0 := by decide
+  simp [Parser.wf, Parser.wfRhs, dotOK, brOK, first, PE.isListOrHash, PE.level, PE.rp, a, b', c, h0]
 end Examples
 
 end Jmes.Props
